@@ -304,6 +304,11 @@ fn const_json<'tcx>(tcx: TyCtxt<'tcx>, caller: DefId, c: &ConstOperand<'tcx>, w:
         }
         _ => {}
     }
+    if let Const::Unevaluated(uv, _) = c.const_ {
+        if let Some(p) = uv.promoted {
+            w.kstr("promoted", &format!("{}#p{}", did_key(uv.def), p.as_u32()));
+        }
+    }
     if let Const::Ty(_, ct) = c.const_ {
         if let ty::ConstKind::Param(p) = ct.kind() {
             w.kstr("const_param", p.name.as_str());
@@ -590,11 +595,31 @@ fn terminator_json<'tcx>(
 
 fn body_json<'tcx>(tcx: TyCtxt<'tcx>, did: DefId, w: &mut W) {
     let body: &Body<'tcx> = tcx.optimized_mir(did);
+    body_json_with(tcx, did, body, None, w);
+    for (p, pb) in tcx.promoted_mir(did).iter_enumerated() {
+        body_json_with(tcx, did, pb, Some(p.as_u32()), w);
+    }
+}
+
+fn body_json_with<'tcx>(tcx: TyCtxt<'tcx>, did: DefId, body: &Body<'tcx>, promoted: Option<u32>, w: &mut W) {
     w.obj_begin();
-    w.kstr("def", &did_key(did));
-    w.kstr("path", &path_of(tcx, did));
+    match promoted {
+        None => {
+            w.kstr("def", &did_key(did));
+            w.kstr("path", &path_of(tcx, did));
+        }
+        Some(p) => {
+            w.kstr("def", &format!("{}#p{}", did_key(did), p));
+            w.kstr("path", &format!("{}::promoted[{}]", path_of(tcx, did), p));
+            w.kstr("promoted_of", &did_key(did));
+        }
+    }
     let kind = tcx.def_kind(did);
-    w.kstr("kind", &format!("{:?}", kind));
+    if promoted.is_some() {
+        w.kstr("kind", "Promoted");
+    } else {
+        w.kstr("kind", &format!("{:?}", kind));
+    }
     if let Some(n) = tcx.opt_item_name(did) {
         w.kstr("name", n.as_str());
     }
